@@ -8,6 +8,7 @@ use crate::subject::{lists::*, map::*, merkle::*, mvreg::*, orswot::*, simple::*
 
 fn add<S: Subject>(jobs: &mut Vec<Box<dyn JobT>>, q: u64, t: u64, ex: &[Class], floor: f64) {
     let pc = PlanCfg::new(Weights::ops_only()).steps(5, 28).observers(0, 2);
+    let pc = pc.long_share(S::LONG);
     let ctx = Ctx::new(Disc::Causal).ex(ex);
     jobs.push(mk_job(format!("{}/causal/ops", S::name()), q, t, pc, ctx, check_converge::<S>).floor("nontrivial", floor).boxed());
 }
@@ -15,10 +16,13 @@ fn add<S: Subject>(jobs: &mut Vec<Box<dyn JobT>>, q: u64, t: u64, ex: &[Class], 
 pub fn property() -> Property {
     let mut jobs: Vec<Box<dyn JobT>> = Vec::new();
     add::<SOrswot>(&mut jobs, 24000, 300_000, &[], 0.03);
+    add::<SOrswotBig>(&mut jobs, 6000, 75000, &[], 0.015);
     add::<SMVReg>(&mut jobs, 24000, 300_000, &[], 0.03);
     add::<MapOrswot>(&mut jobs, 24000, 300_000, &[], 0.03);
+    add::<MapOrswotBig>(&mut jobs, 6000, 75000, &[], 0.015);
     add::<MapMapOrswot>(&mut jobs, 18000, 200_000, &[], 0.03);
     add::<MapMVReg>(&mut jobs, 24000, 300_000, &[Class::T2], 0.03);
+    add::<MapMVRegBig>(&mut jobs, 6000, 75000, &[Class::T2], 0.015);
     add::<MapMapMVReg>(&mut jobs, 18000, 200_000, &[Class::T2], 0.03);
     add::<SList>(&mut jobs, 12000, 100_000, &[], 0.03);
     add::<SGList>(&mut jobs, 12000, 100_000, &[], 0.03);
